@@ -62,7 +62,7 @@ pub fn run(ctx: &mut Ctx) {
 
     // ---- oracle 1: derived key, spec recurrence, round trip with independent chunkings ----
     let mut rng = ctx.rng("oracle");
-    let n = if ctx.quick() { 3000 } else { 60000 };
+    let n = if ctx.quick() { 3000 } else { 250000 };
     for k in 0..n {
         let key: [u8; 40] = rng.arr();
         let dk = hmac_sha1(&TBC_SEED, &key);
@@ -101,7 +101,7 @@ pub fn run(ctx: &mut Ctx) {
     }
 
     // ---- oracle 2: exhaustive step table (position 0..19, previous 0..255, input 0..255) ----
-    let nkeys = if ctx.quick() { 1 } else { 4 };
+    let nkeys = if ctx.quick() { 1 } else { 8 };
     for _ in 0..nkeys {
         let key: [u8; 40] = rng.arr();
         let dk = hmac_sha1(&TBC_SEED, &key);
